@@ -140,7 +140,7 @@ def run(chk: harness.Check):
         "receive matching severities; (D4) in RecipeCollector::parse_events the Event::Error arm calls SourceReport::retain with a Stage::Parse predicate and "
         "returns PassResult::new(None, ..), every other PassResult::new carries Some(content); (D5) PassResult::is_valid is has_output() ∧ ¬has_errors(); "
         "(D6) every Number::Fraction built in the parser takes its denominator from frac() or under the `== 0` rejection; (D7) the out-of-range diagnostic of an intermediate reference is guarded by the "
-        "n-th element of the is_step-filtered enumeration of the current section / a comparison with content.sections.len() (shared with C06.D6); (D8) Text::is_text_empty, on which the empty-name/unit/key/value checks hang, examines every fragment; (D9) the primary label stays labels[0]: constructors start the list with it and it is only ever pushed to; (D10) the sets of modifier flags tested by the forbidden-modifier checks are the reviewed sets; (D11) the front-matter mapping that is checked is the deserialiser's result on every path and every exit after deserialising processes it or reports. Weak: which condition triggers a "
+        "n-th element of the is_step-filtered enumeration of the current section / a comparison with content.sections.len() (shared with C06.D6); (D8) Text::is_text_empty, on which the empty-name/unit/key/value checks hang, examines every fragment; (D9) the primary label stays labels[0]: constructors start the list with it and it is only ever pushed to; (D10) the sets of modifier flags tested by the forbidden-modifier checks are the reviewed sets; (D11) the front-matter mapping that is checked is the deserialiser's result on every path and every exit after deserialising processes it or reports; (D12) the cookware parser tests the unit itself and reports it on every path where it is present. Weak: which condition triggers a "
         "diagnostic and where its labels point are not decided.")
     chk.trusted = ["rustc MIR", "tables/diagnostics.toml (reviewed catalogue; message texts are listed for the reader and never compared)"]
     cons = constructions(F)
@@ -183,6 +183,7 @@ def run(chk: harness.Check):
     d9_primary_label(chk, F)
     d10_modifier_sets(chk, F)
     d11_frontmatter_malformed(chk, F)
+    d12_cookware_unit(chk, F)
 
 
 # reviewed sets of modifier flags that a check tests for (function suffix, method) -> set; from the documented rules:
@@ -191,6 +192,39 @@ MODIFIER_SETS = {
     ("RecipeCollector::ingredient", "intersects"): {"RECIPE", "HIDDEN", "NEW"},
     ("RecipeCollector::resolve_reference", "contains"): {"NEW", "REF"},
 }
+
+
+def d12_cookware_unit(chk, F):
+    """'unit on cookware … produces a diagnostic': where the cookware parser handles the parsed quantity, the presence of a unit is
+    tested on the unit itself (`q.quantity.unit`) and every path from its present outcome to the end passes through BlockParser::error —
+    the error does not additionally depend on how the unit was written (with or without a `%` separator)."""
+    from cfgq import must_pass
+    R = "C07.D12-cookware-unit"
+    gs = [g for g in F.region_funcs("cooklang::parser::step::cookware") if any((callee_key(t) or "").endswith("quantity::parse_quantity") for _, t in g.calls())]
+    if len(gs) != 1:
+        chk.fail("anchor-missing", "cookware|parse_quantity", "", f"anchor-missing: the part of parser::step::cookware that parses the quantity found {len(gs)} times")
+        return
+    g = gs[0]
+    starts = []
+    for i, j, st in g.iter_stmts():
+        rv = st.get("rv", {})
+        if st["k"] == "assign" and rv.get("k") == "discr" and "Option<text::Text" in norm(rv.get("ty", "")):
+            txt = show(resolve_place(g, rv["place"]), -80)
+            if ".unit" in txt and ".unit_separator" not in txt:
+                some = [v[0] for v in rv["variants"] if v[1] == "Some"]
+                for b, t in g.iter_terms("switch"):
+                    if operand_local(t["discr"]) == st["place"]["l"] and some:
+                        starts += [tgt for val, tgt in t["targets"] if val == some[0]] or [t["otherwise"]]
+    errs = [b for b, _ in calls_to(g, "BlockParser::error")]
+    if not starts:
+        chk.fail(R, "cookware|unit test", f"{g.file}:{g.line}",
+                 "the cookware parser no longer tests the presence of the quantity's unit itself before deciding whether to report it: a unit written in "
+                 "another way (e.g. without the `%` separator) can slip through without the 'unit on cookware' error")
+        return
+    ok = bool(errs) and must_pass(g, starts, errs, list(g.returns()))
+    chk.expect(ok, R, "cookware|unit → error", g.where(starts[0]),
+               "a cookware quantity with a unit can be accepted without the 'Invalid cookware quantity: unit' error on some path",
+               sample=f"{g.where(starts[0])}: unit present ⇒ bp.error(..) on every path")
 
 
 def d11_frontmatter_malformed(chk, F):
